@@ -63,6 +63,7 @@ type Term struct {
 	Val  *big.Int // constants
 	Name string   // vars, applications
 	I, J int      // extract
+	CL   int      // >0: the term is a tree of ite nodes whose leaves are constants (CL = number of leaves)
 }
 
 func (t *Term) IsConst() bool { return t.Op == OpConst }
@@ -120,8 +121,47 @@ func (c *Ctx) mk(t *Term) *Term {
 	}
 	c.nextID++
 	t.ID = c.nextID
+	switch t.Op {
+	case OpConst:
+		t.CL = 1
+	case OpIte:
+		if t.Args[1].CL > 0 && t.Args[2].CL > 0 {
+			t.CL = t.Args[1].CL + t.Args[2].CL
+		}
+	}
 	c.tab[k] = t
 	return t
+}
+
+const maxCL = 600
+
+// mapCL applies f to every constant leaf of a const-leaf ite tree.
+func (c *Ctx) mapCL(t *Term, f func(*Term) *Term) *Term {
+	memo := map[int]*Term{}
+	var rec func(t *Term) *Term
+	rec = func(t *Term) *Term {
+		if t.Op == OpConst {
+			return f(t)
+		}
+		if r, ok := memo[t.ID]; ok {
+			return r
+		}
+		r := c.Ite(t.Args[0], rec(t.Args[1]), rec(t.Args[2]))
+		memo[t.ID] = r
+		return r
+	}
+	return rec(t)
+}
+
+func isCL(t *Term) bool { return t.Op == OpIte && t.CL > 0 && t.CL <= maxCL }
+
+// MapLeaves exposes mapCL for table lookups: if idx is a const-leaf tree the
+// lookup is pushed to the leaves. ok=false if idx is not such a tree.
+func (c *Ctx) MapLeaves(idx *Term, f func(*Term) *Term) (*Term, bool) {
+	if !isCL(idx) {
+		return nil, false
+	}
+	return c.mapCL(idx, f), true
 }
 
 func mask(w int) *big.Int {
@@ -309,12 +349,12 @@ func (c *Ctx) Eq(a, b *Term) *Term {
 			return c.Not(a)
 		}
 	}
-	// (= (ite c k1 k2) k) with constants folds
-	if b.IsConst() && a.Op == OpIte && a.Args[1].IsConst() && a.Args[2].IsConst() {
-		return c.Ite(a.Args[0], c.Eq(a.Args[1], b), c.Eq(a.Args[2], b))
+	// (= tree k) with a const-leaf ite tree folds at the leaves
+	if b.IsConst() && isCL(a) {
+		return c.mapCL(a, func(l *Term) *Term { return c.Eq(l, b) })
 	}
-	if a.IsConst() && b.Op == OpIte && b.Args[1].IsConst() && b.Args[2].IsConst() {
-		return c.Ite(b.Args[0], c.Eq(b.Args[1], a), c.Eq(b.Args[2], a))
+	if a.IsConst() && isCL(b) {
+		return c.mapCL(b, func(l *Term) *Term { return c.Eq(l, a) })
 	}
 	// zero-extended value compared with a constant
 	if b.IsConst() && a.Op == OpZext {
@@ -376,6 +416,18 @@ func (c *Ctx) bin(op Op, a, b *Term) *Term {
 	if a.IsConst() && b.IsConst() {
 		if r := foldBin(op, a.Val, b.Val, w); r != nil {
 			return c.BVBig(r, w)
+		}
+	}
+	if b.IsConst() && isCL(a) && !(b.Val.Sign() == 0 && (op == OpBvSDiv || op == OpBvSRem)) {
+		return c.mapCL(a, func(l *Term) *Term { return c.bin(op, l, b) })
+	}
+	if a.IsConst() && isCL(b) {
+		zeroDiv := false
+		if op == OpBvSDiv || op == OpBvSRem {
+			zeroDiv = true // a leaf of b might be zero; keep symbolic
+		}
+		if !zeroDiv {
+			return c.mapCL(b, func(l *Term) *Term { return c.bin(op, a, l) })
 		}
 	}
 	switch op {
@@ -542,6 +594,9 @@ func (c *Ctx) BvNot(a *Term) *Term {
 	if a.IsConst() {
 		return c.BVBig(new(big.Int).Xor(a.Val, mask(a.W)), a.W)
 	}
+	if isCL(a) {
+		return c.mapCL(a, c.BvNot)
+	}
 	if a.Op == OpBvNot {
 		return a.Args[0]
 	}
@@ -551,6 +606,9 @@ func (c *Ctx) BvNot(a *Term) *Term {
 func (c *Ctx) Neg(a *Term) *Term {
 	if a.IsConst() {
 		return c.BVBig(new(big.Int).Neg(a.Val), a.W)
+	}
+	if isCL(a) {
+		return c.mapCL(a, c.Neg)
 	}
 	return c.mk(&Term{Op: OpBvNeg, W: a.W, Args: []*Term{a}})
 }
@@ -573,6 +631,12 @@ func (c *Ctx) cmp(op Op, a, b *Term) *Term {
 	}
 	if a == b {
 		return c.Bool(op == OpBvUle || op == OpBvSle)
+	}
+	if b.IsConst() && isCL(a) {
+		return c.mapCL(a, func(l *Term) *Term { return c.cmp(op, l, b) })
+	}
+	if a.IsConst() && isCL(b) {
+		return c.mapCL(b, func(l *Term) *Term { return c.cmp(op, a, l) })
 	}
 	// unsigned comparisons against zero-extended values
 	if op == OpBvUlt && b.IsConst() && b.Val.Sign() == 0 {
@@ -652,6 +716,9 @@ func (c *Ctx) Extract(a *Term, hi, lo int) *Term {
 		v := new(big.Int).Rsh(a.Val, uint(lo))
 		return c.BVBig(v, w)
 	}
+	if isCL(a) {
+		return c.mapCL(a, func(l *Term) *Term { return c.Extract(l, hi, lo) })
+	}
 	switch a.Op {
 	case OpExtract:
 		return c.Extract(a.Args[0], a.J+hi, a.J+lo)
@@ -677,10 +744,6 @@ func (c *Ctx) Extract(a *Term, hi, lo int) *Term {
 		if hi < in.W {
 			return c.Extract(in, hi, lo)
 		}
-	case OpIte:
-		if a.Args[1].IsConst() && a.Args[2].IsConst() {
-			return c.Ite(a.Args[0], c.Extract(a.Args[1], hi, lo), c.Extract(a.Args[2], hi, lo))
-		}
 	case OpBvAnd, OpBvOr, OpBvXor:
 		if lo == 0 || a.Args[0].IsConst() || a.Args[1].IsConst() {
 			return c.bin(a.Op, c.Extract(a.Args[0], hi, lo), c.Extract(a.Args[1], hi, lo))
@@ -703,6 +766,9 @@ func (c *Ctx) Zext(a *Term, w int) *Term {
 	if a.IsConst() {
 		return c.BVBig(a.Val, w)
 	}
+	if isCL(a) {
+		return c.mapCL(a, func(l *Term) *Term { return c.Zext(l, w) })
+	}
 	if a.Op == OpZext {
 		return c.Zext(a.Args[0], w)
 	}
@@ -718,6 +784,9 @@ func (c *Ctx) Sext(a *Term, w int) *Term {
 	}
 	if a.IsConst() {
 		return c.BVBig(signed(a.Val, a.W), w)
+	}
+	if isCL(a) {
+		return c.mapCL(a, func(l *Term) *Term { return c.Sext(l, w) })
 	}
 	if a.Op == OpZext && a.Args[0].W < a.W {
 		return c.Zext(a.Args[0], w)
